@@ -865,6 +865,8 @@ def _native_table():
         secrets.token_hex: world_value("uuid"), secrets.randbelow: world_value("random"),
         threading.get_ident: world_value("pid"),
     }
+    import unicodedata
+    t[unicodedata.normalize] = m_unicode_normalize
     for alg in DIGEST_BITS:
         f = getattr(hashlib, alg, None)
         if f is not None:
@@ -1074,6 +1076,19 @@ def str_method(ctx, interp, s, name, args, kwargs):
         raise Unsupported("str.strip on symbolic str")
     if name == "__len__":
         return ops.py_len(ctx, s)
+    if name == "isascii" and isinstance(s, SStr) and not args:
+        return ops.wrap_bool(z3.InRe(s.term, z3.Star(z3.Range(chr(0), chr(127)))))
+    if isinstance(s, SStr) and name in _PURE_STR_TO_STR and not contains_sym(args) and not kwargs:
+        # a pure str -> str method without a precise model: an uninterpreted function of the receiver (one symbol per
+        # method and constant arguments).  Over-approximates the method, so `unsat` verdicts stay valid; a `sat` verdict
+        # has to be confirmed by the replay (which may need to search for a string on which the method is not the identity)
+        ctx.note("stub: str.%s is an uninterpreted function of its receiver" % name)
+        f = z3.Function("py_str_%s_%s" % (name, common_hash(args)), z3.StringSort(), z3.StringSort())
+        return SStr(f(s.term))
+    if isinstance(s, SStr) and name in _PURE_STR_TO_BOOL and not args:
+        ctx.note("stub: str.%s is an uninterpreted predicate" % name)
+        f = z3.Function("py_str_%s" % name, z3.StringSort(), z3.BoolSort())
+        return ops.wrap_bool(f(s.term))
     if name == "count" and len(args) == 1 and isinstance(args[0], str) and isinstance(s, SStr):
         ctx.note("stub: str.count returns an arbitrary non-negative int")
         n = z3.Int(ctx.fresh_name("count"))
@@ -1082,6 +1097,31 @@ def str_method(ctx, interp, s, name, args, kwargs):
     if name == "replace" and len(args) == 2:
         raise Unsupported("str.replace on symbolic str")
     raise Unsupported("str.%s with symbolic values" % name)
+
+
+_PURE_STR_TO_STR = {"upper", "casefold", "title", "capitalize", "swapcase", "lstrip", "rstrip", "strip", "replace", "zfill",
+                    "ljust", "rjust", "center", "expandtabs", "removeprefix", "removesuffix"}
+_PURE_STR_TO_BOOL = {"isdigit", "isalpha", "isalnum", "isdecimal", "isnumeric", "isspace", "islower", "isupper", "istitle",
+                     "isidentifier", "isprintable"}
+
+
+def common_hash(args):
+    import hashlib as _h
+    return _h.sha1(repr(tuple(args)).encode()).hexdigest()[:8]
+
+
+def m_unicode_normalize(ctx, interp, args, kwargs):
+    form, v = args[0], args[1]
+    if not contains_sym(args):
+        import unicodedata
+        try:
+            return unicodedata.normalize(form, v)
+        except Exception as e:
+            raise SymRaise(e)
+    if not isinstance(form, str) or not isinstance(v, SStr):
+        raise Unsupported("unicodedata.normalize with symbolic form")
+    ctx.note("stub: unicodedata.normalize(%s, .) is an uninterpreted function" % form)
+    return SStr(z3.Function("py_unicode_normalize_%s" % form, z3.StringSort(), z3.StringSort())(v.term))
 
 
 _LIST_MUTATORS = {"append", "extend", "insert", "pop", "remove", "clear", "sort", "reverse", "__setitem__",
